@@ -111,6 +111,71 @@ fn check_locations(acc: &mut Acc, sub: &str, rank: u64, input: &[u8], po: &PO) {
     }
 }
 
+/// Location clause on a stream that fails transiently: the reader refuses `times` consecutive
+/// calls before byte k and then carries on; the caller repeats the call on the same parser. The
+/// locations of all syntax / EOF errors of the run must still be within the input (positions
+/// count delivered bytes, not calls of the reader: seeds C11-f2, C19-g1).
+fn check_locations_flaky(acc: &mut Acc, rank: u64, input: &[u8], po: &PO) {
+    struct Flaky<'a> {
+        data: &'a [u8],
+        pos: usize,
+        fail_at: usize,
+        left: usize,
+    }
+    impl<'a> io::Read for Flaky<'a> {
+        fn read(&mut self, buf: &mut [u8]) -> io::Result<usize> {
+            if buf.is_empty() {
+                return Ok(0);
+            }
+            if self.pos >= self.fail_at && self.left > 0 {
+                self.left -= 1;
+                return Err(io::Error::new(io::ErrorKind::WouldBlock, "injected transient read error"));
+            }
+            if self.pos >= self.data.len() {
+                return Ok(0);
+            }
+            buf[0] = self.data[self.pos];
+            self.pos += 1;
+            Ok(1)
+        }
+    }
+    let o = po.to_lexpr();
+    for k in 0..=input.len() {
+        for times in 1..=3usize {
+            acc.evals += 1;
+            let reader = Flaky { data: input, pos: 0, fail_at: k, left: times };
+            let errs = guard(std::panic::AssertUnwindSafe(move || {
+                let mut p = lexpr::parse::Parser::from_reader_custom(reader, o);
+                let mut errs: Vec<Error> = Vec::new();
+                for _ in 0..(input.len() + times + 4) {
+                    match p.next_value() {
+                        Ok(Some(_)) => {}
+                        Ok(None) => break,
+                        Err(e) => errs.push(e),
+                    }
+                }
+                errs
+            }));
+            if let Ok(errs) = errs {
+                for e in errs {
+                    if e.classify() == Category::Io {
+                        continue;
+                    }
+                    acc.nontrivial += 1;
+                    if let Some(l) = e.location() {
+                        acc.outcome(&(l.line().min(4), times));
+                        if !location_in_bounds(input, l.line(), l.column()) {
+                            let (h, pi) = (hex(input), po.index());
+                            acc.violation("locations-flaky", "location-out-of-bounds", "location-out-of-bounds:after-transient-read-errors", rank, format!("input={:?} opts=[{}] {} transient read error(s) before byte {}", show_bytes(input), po.describe(), times, k), format!("{} — the input has {} line(s); line {} has {:?} bytes", e, crate::model::pos::line_count(input), l.line(), crate::model::pos::line_len(input, l.line())), || json!({"flaky_hex": h, "po": pi}));
+                            return;
+                        }
+                    }
+                }
+            }
+        }
+    }
+}
+
 /// Truncation: every proper prefix of a text that parses; if the prefix does not parse, the error
 /// category must be Eof.
 fn check_truncations(acc: &mut Acc, rank: u64, text: &[u8], po: &PO) {
@@ -211,6 +276,10 @@ fn check_truncation_alphabet(acc: &mut Acc, rank: u64, p: &[u8], po: &PO, ext_le
 pub fn replay(sub: &str, case: &J, acc: &mut Acc) {
     let input = unhex(case["input_hex"].as_str().unwrap_or(""));
     let po = PO::from_index(case["po"].as_u64().unwrap_or(0));
+    if let Some(h) = case["flaky_hex"].as_str() {
+        check_locations_flaky(acc, 0, &unhex(h), &po);
+        return;
+    }
     if let Some(h) = case["io_text_hex"].as_str() {
         check_io_conversion(acc, case["rank"].as_u64().unwrap_or(0), &unhex(h), &po);
         return;
@@ -294,6 +363,19 @@ pub fn run(ctx: &Ctx) -> Report {
             let input = &inputs[(rank / 2) as usize];
             acc.sample(rank, || format!("{:?}", crate::util::trunc(&show_bytes(input), 60)));
             check_locations(acc, "locations-multiline", rank, input, &two[(rank % 2) as usize]);
+        });
+        rep.absorb(sub, accs);
+    }
+    if ctx.want("locations-flaky") {
+        let mut inputs = multiline_inputs();
+        inputs.extend(corpus_all(thorough));
+        inputs.retain(|t| t.len() <= 48);
+        let n = inputs.len() as u64;
+        let sub = Sub::new("locations-flaky", "the multi-line inputs and corpus texts of at most 48 bytes read from a stream that refuses 1, 2 or 3 consecutive calls before byte k (every k) and then carries on, the caller repeating next_value on the same parser: every syntax / EOF error of the run has a location within the input; non-trivial = such an error", &format!("{} inputs x 2 option sets x every offset x 3", n));
+        let accs = par_ranks(n * 2, |rank, acc| {
+            let input = &inputs[(rank / 2) as usize];
+            acc.sample(rank, || format!("{:?}", crate::util::trunc(&show_bytes(input), 60)));
+            check_locations_flaky(acc, rank, input, &two[(rank % 2) as usize]);
         });
         rep.absorb(sub, accs);
     }
